@@ -97,7 +97,7 @@ def run(tier, seed):
                 for req in range(9):
                     if nops == 2 and tier == 'quick' and req not in (0, 1, 2, 5, 7):
                         continue
-                    if req >= 5 and tier == 'quick' and (va, vb) != (0, 0):
+                    if req >= 5 and (va, vb) != (0, 0):
                         continue        # these requests do not go through a.py / b.py
                     if nops == 2 and tier == 'thorough' and ((va, vb) not in ((0, 0), (0, 2), (1, 3), (2, 2), (3, 3), (0, 3)) or
                                                              (req >= 5 and (va, vb) != (0, 0))):
@@ -106,9 +106,13 @@ def run(tier, seed):
                     if nops == 1:
                         pre += ' and f2 == 0 and v2 == 0'
                         if tier == 'thorough':
+                            # the quick selection of files, with the warm-up request being the first or the final one
+                            # (larger selections did not finish within 30-90 minutes, see DESIGN.md)
                             pre += ' and (warm == 0 or warm == %d)' % req
-                            if req not in (5, 6, 8):
-                                pre += ' and vd == -1'      # the package module matters only for the requests that reach it
+                            if req in (5, 6, 8):
+                                pre += ' and vc <= 0 and f1 >= 2'
+                            else:
+                                pre += ' and vd == -1 and f1 <= 2'
                     elif tier == 'thorough':
                         pre += ' and vc <= 0 and (warm == 0 or warm == %d)' % req
                     if tier == 'quick':
